@@ -495,6 +495,13 @@ TRefresh ==
                             (S2.w[w].outs[k].tx = S2.w[w].txs[t].id /\ S2.w[w].outs[k].acct = S2.w[w].txs[t].acct)
                                => S2.w[w].outs[k].st # "Locked",
                 "C17", "ExpiredReleased", e, "")
+     /\ (~Ok(e) /\ aux.nodeUp /\ Len(e.res) > 4 /\ SubSeq(e.res, 1, 4) = "err:") =>
+          \* C17: "a refresh at such a height cancels ..." - a refresh that FAILS with the node reachable while an own
+          \* transaction is past its cutoff has not released it (on the pinned tree refresh never fails with the node up)
+          Check(\A t \in expired : t \in DOMAIN S2.w[w].txs =>
+                   \/ S2.w[w].txs[t].conf
+                   \/ S2.w[w].txs[t].ty \in {"TxSentCancelled", "TxReceivedCancelled"},
+                "C17", "ExpiredReleased", e, "refresh fails")
      /\ (Ok(e) /\ e.refreshed /\ clean) =>     \* (a scan repair after a reorganisation may cancel entries)
           Check(\A t \in DOMAIN st.w[w].txs :
                    (st.w[w].txs[t].ty \in {"TxSent", "TxReceived"} /\ t \notin expired /\ t \in DOMAIN S2.w[w].txs)
